@@ -33,14 +33,34 @@ type root struct {
 	kind rootKind
 	fn   *ssa.Function
 	idx  int       // parameter index (free variables follow the parameters)
+	deep bool      // parameter roots come in two: the objects the parameter value refers to directly
+	// (shallow) and everything reachable from them through at least one load (deep)
 	site ssa.Value // allocation / call site
 	id   int
+}
+
+// slot numbers a parameter root: 2*idx for the shallow root, 2*idx+1 for the deep one.
+func (r *root) slot() int {
+	if r.deep {
+		return 2*r.idx + 1
+	}
+	return 2 * r.idx
+}
+
+func slotStr(s int) string {
+	if s < 0 {
+		return "globals"
+	}
+	if s%2 == 1 {
+		return fmt.Sprintf("P%d+", s/2)
+	}
+	return fmt.Sprintf("P%d", s/2)
 }
 
 func (r *root) String() string {
 	switch r.kind {
 	case rkParam:
-		return fmt.Sprintf("P%d", r.idx)
+		return slotStr(r.slot())
 	case rkAlloc:
 		return fmt.Sprintf("A(%s)", r.site.Name())
 	case rkGlobal:
@@ -78,16 +98,16 @@ type modInfo struct {
 
 type e1Summary struct {
 	nparams    int
-	mods       map[int]*modInfo
-	flows      map[int]map[int]bool // i -> j ; j == -1 is "globals"
+	mods       map[int]*modInfo     // slot -> reason
+	flows      map[int]map[int]bool // source slot -> destination slot ; -1 is "globals"
 	flowWhy    map[[2]int]*modInfo
-	ret        []map[int]bool       // per result: parameter indices it may derive from
+	ret        []map[int]bool // per result: slots it may derive from
 	retFresh   []bool
 	retGlobal  []bool
 	retExt     []bool
-	retContent map[int]bool // parameters that fresh returned objects may contain references into
+	retContent map[int]bool // slots that fresh returned objects may contain references into
 	retContG   bool
-	gmod       *modInfo // writes to package-level variables (non-atomic)
+	gmod       *modInfo // non-atomic writes to package-level variables
 }
 
 func (s *e1Summary) size() int {
@@ -125,13 +145,25 @@ type e1Fn struct {
 	mods    map[*root]*modInfo
 	cur     ssa.Instruction // instruction being transferred (for edge reasons)
 	curVia  *modInfo
+	spec    *specKey // non-nil for a clone specialised to a closure argument
+	base    int      // index of the first pseudo-parameter (the closure's bindings)
 	proots  []*root
 	aroots  map[ssa.Value]*root
 	sum     *e1Summary
 }
 
+// specKey: function g analysed for the case that its func-typed parameter j is the closure h;
+// the clone has one extra pseudo-parameter per free variable of h.
+type specKey struct {
+	g *ssa.Function
+	j int
+	h *ssa.Function
+}
+
 type E1 struct {
 	c        *Ctx
+	specs    map[specKey]*e1Fn
+	all      []*e1Fn
 	fns      map[*ssa.Function]*e1Fn
 	order    []*ssa.Function
 	G, X     *root
@@ -141,6 +173,8 @@ type E1 struct {
 	Unres    map[string]int  // unresolved dynamic calls (callee description -> count)
 	External map[string]int  // calls treated with the external summary
 	typeMemo map[types.Type]bool
+	Modelled  map[string]string // modelled facts used (printed in the evidence)
+	foreign   map[ssa.Value]bool
 	tupleVals map[tupleKey]ssa.Value
 	retVals   map[*ssa.Function]map[int]ssa.Value
 }
@@ -154,7 +188,7 @@ var immutableTypes = []string{
 }
 
 func NewE1(c *Ctx) *E1 {
-	e := &E1{c: c, fns: map[*ssa.Function]*e1Fn{}, immut: map[string]bool{}, Unres: map[string]int{}, External: map[string]int{}, typeMemo: map[types.Type]bool{}, tupleVals: map[tupleKey]ssa.Value{}, retVals: map[*ssa.Function]map[int]ssa.Value{}}
+	e := &E1{c: c, specs: map[specKey]*e1Fn{}, fns: map[*ssa.Function]*e1Fn{}, immut: map[string]bool{}, Unres: map[string]int{}, External: map[string]int{}, typeMemo: map[types.Type]bool{}, Modelled: map[string]string{}, foreign: map[ssa.Value]bool{}, tupleVals: map[tupleKey]ssa.Value{}, retVals: map[*ssa.Function]map[int]ssa.Value{}}
 	e.G = &root{kind: rkGlobal, id: 0}
 	e.X = &root{kind: rkExt, id: 1}
 	e.nextID = 2
@@ -182,8 +216,49 @@ func NewE1(c *Ctx) *E1 {
 	sort.Slice(e.order, func(i, j int) bool { return e.order[i].String() < e.order[j].String() })
 	for _, fn := range e.order {
 		e.fns[fn] = e.newFn(fn)
+		e.all = append(e.all, e.fns[fn])
 	}
 	return e
+}
+
+// specFor returns (creating on demand) the clone of g specialised to closure h in parameter j.
+func (e *E1) specFor(g *ssa.Function, j int, h *ssa.Function) *e1Fn {
+	k := specKey{g, j, h}
+	if f, ok := e.specs[k]; ok {
+		return f
+	}
+	f := e.newFn(g)
+	f.spec = &k
+	f.base = len(f.params)
+	for _, fv := range h.FreeVars {
+		f.params = append(f.params, fv)
+		e.addParamRoots(f, len(f.params)-1, fv)
+		delete(f.pts, fv) // the pseudo-parameter is not a value of g
+	}
+	f.sum.nparams = len(f.params)
+	e.specs[k] = f
+	e.all = append(e.all, f)
+	return f
+}
+
+// closureArg: does the call pass a closure created in the calling function for a func-typed
+// parameter of g? Returns the parameter index and the MakeClosure.
+func (e *E1) closureArg(g *ssa.Function, args []ssa.Value) (int, *ssa.MakeClosure) {
+	for j, p := range g.Params {
+		if _, ok := p.Type().Underlying().(*types.Signature); !ok || j >= len(args) {
+			continue
+		}
+		srcs := Sources(args[j])
+		if len(srcs) != 1 {
+			continue
+		}
+		if mc, ok := srcs[0].(*ssa.MakeClosure); ok {
+			if h, ok := mc.Fn.(*ssa.Function); ok && e.fns[h] != nil && len(h.FreeVars) == len(mc.Bindings) {
+				return j, mc
+			}
+		}
+	}
+	return -1, nil
 }
 
 func (e *E1) newRoot(k rootKind, fn *ssa.Function, idx int, site ssa.Value) *root {
@@ -201,11 +276,7 @@ func (e *E1) newFn(fn *ssa.Function) *e1Fn {
 		f.params = append(f.params, fv)
 	}
 	for i, p := range f.params {
-		r := e.newRoot(rkParam, fn, i, p)
-		f.proots = append(f.proots, r)
-		if e.carries(p.Type()) {
-			f.pts[p] = rootSet{r: {}}
-		}
+		e.addParamRoots(f, i, p)
 	}
 	nres := fn.Signature.Results().Len()
 	f.sum = &e1Summary{nparams: len(f.params), mods: map[int]*modInfo{}, flows: map[int]map[int]bool{}, flowWhy: map[[2]int]*modInfo{}, retContent: map[int]bool{},
@@ -214,6 +285,16 @@ func (e *E1) newFn(fn *ssa.Function) *e1Fn {
 		f.sum.ret[i] = map[int]bool{}
 	}
 	return f
+}
+
+func (e *E1) addParamRoots(f *e1Fn, i int, p ssa.Value) {
+	r := e.newRoot(rkParam, f.fn, i, p)
+	rd := e.newRoot(rkParam, f.fn, i, p)
+	rd.deep = true
+	f.proots = append(f.proots, r, rd)
+	if e.carries(p.Type()) {
+		f.pts[p] = rootSet{r: {}}
+	}
 }
 
 // carries: can a value of type t hold a reference to mutable, non-cut storage?
@@ -281,8 +362,8 @@ func (e *E1) carries0(t types.Type, depth int) bool {
 func (e *E1) Run() {
 	for iter := 0; iter < 60; iter++ {
 		changed := false
-		for _, fn := range e.order {
-			f := e.fns[fn]
+		for i := 0; i < len(e.all); i++ {
+			f := e.all[i]
 			before := f.sum.size()
 			e.analyse(f)
 			e.summarise(f)
@@ -346,10 +427,56 @@ func (f *e1Fn) addMod(r *root, m *modInfo) bool {
 func (f *e1Fn) loadFrom(rs rootSet) rootSet {
 	out := rootSet{}
 	for r := range rs {
-		if r.kind != rkAlloc {
+		switch r.kind {
+		case rkParam:
+			// a load through a parameter blob yields its deep part; deep objects may point back to
+			// the shallow ones (parent links)
+			out.add(f.proots[2*r.idx+1])
+			if r.deep {
+				out.add(f.proots[2*r.idx])
+			}
+		case rkGlobal, rkExt:
 			out.add(r)
 		}
 		out.addAll(f.content[r])
+	}
+	return out
+}
+
+// below: everything reachable from rs through at least one load; edges created by instruction
+// `skip` are not followed (a call must not see its own effects as part of its arguments).
+func (f *e1Fn) below(rs rootSet, skip ssa.Instruction) rootSet {
+	out := rootSet{}
+	var work []*root
+	push := func(r *root) {
+		if out.add(r) {
+			work = append(work, r)
+		}
+	}
+	expand := func(r *root) {
+		switch r.kind {
+		case rkParam:
+			push(f.proots[2*r.idx+1])
+			if r.deep {
+				push(f.proots[2*r.idx])
+			}
+		}
+		for c := range f.content[r] {
+			if skip != nil {
+				if w := f.why[[2]*root{r, c}]; w != nil && w.instr == skip {
+					continue
+				}
+			}
+			push(c)
+		}
+	}
+	for r := range rs {
+		expand(r)
+	}
+	for len(work) > 0 {
+		r := work[len(work)-1]
+		work = work[:len(work)-1]
+		expand(r)
 	}
 	return out
 }
@@ -366,6 +493,17 @@ func (f *e1Fn) reach(rs rootSet) rootSet {
 	for len(work) > 0 {
 		r := work[len(work)-1]
 		work = work[:len(work)-1]
+		if r.kind == rkParam {
+			d := f.proots[2*r.idx+1]
+			if out.add(d) {
+				work = append(work, d)
+			}
+			if r.deep {
+				if sh := f.proots[2*r.idx]; out.add(sh) {
+					work = append(work, sh)
+				}
+			}
+		}
 		for c := range f.content[r] {
 			if out.add(c) {
 				work = append(work, c)
@@ -375,8 +513,9 @@ func (f *e1Fn) reach(rs rootSet) rootSet {
 	return out
 }
 
-// reachWhy: roots reachable from the content of r0, each with the reason of the last edge on one path.
-func (f *e1Fn) reachWhy(r0 *root) map[*root]*modInfo {
+// contentReach: roots stored into r0 by this function (through fresh objects transitively), each
+// with the reason of the last edge on one path.
+func (f *e1Fn) contentReach(r0 *root) map[*root]*modInfo {
 	out := map[*root]*modInfo{}
 	work := []*root{r0}
 	seen := map[*root]bool{r0: true}
@@ -387,7 +526,9 @@ func (f *e1Fn) reachWhy(r0 *root) map[*root]*modInfo {
 			if !seen[c] {
 				seen[c] = true
 				out[c] = f.why[[2]*root{r, c}]
-				work = append(work, c)
+				if c.kind == rkAlloc { // what a fresh object contains is contained, too
+					work = append(work, c)
+				}
 			}
 		}
 	}
@@ -621,43 +762,41 @@ func (e *E1) retv(f *e1Fn, i int) ssa.Value {
 
 func (e *E1) summarise(f *e1Fn) {
 	s := f.sum
-	pidx := map[*root]int{}
-	for i, r := range f.proots {
-		pidx[r] = i
+	slotOf := map[*root]int{}
+	for _, r := range f.proots {
+		slotOf[r] = r.slot()
 	}
 	for r, m := range f.mods {
-		if i, ok := pidx[r]; ok {
-			if s.mods[i] == nil {
-				s.mods[i] = m
+		if sl, ok := slotOf[r]; ok {
+			if s.mods[sl] == nil {
+				s.mods[sl] = m
 			}
 		}
 		if r == e.G && s.gmod == nil {
 			s.gmod = m
 		}
 	}
-	// flows: P_i reachable through content from P_j (or G)
-	for j, rj := range f.proots {
-		for r, why := range f.reachWhy(rj) {
-			if i, ok := pidx[r]; ok && i != j {
-				if s.flows[i] == nil {
-					s.flows[i] = map[int]bool{}
-				}
-				if !s.flows[i][j] {
-					s.flows[i][j] = true
-					s.flowWhy[[2]int{i, j}] = why
-				}
+	addFlow := func(src, dst int, why *modInfo) {
+		if s.flows[src] == nil {
+			s.flows[src] = map[int]bool{}
+		}
+		if !s.flows[src][dst] {
+			s.flows[src][dst] = true
+			s.flowWhy[[2]int{src, dst}] = why
+		}
+	}
+	// flows: parameter roots found in the content (transitively through allocations) of another
+	// parameter root or of the globals
+	for _, rj := range f.proots {
+		for r, why := range f.contentReach(rj) {
+			if sl, ok := slotOf[r]; ok && r.idx != rj.idx {
+				addFlow(sl, rj.slot(), why)
 			}
 		}
 	}
-	for r, why := range f.reachWhy(e.G) {
-		if i, ok := pidx[r]; ok {
-			if s.flows[i] == nil {
-				s.flows[i] = map[int]bool{}
-			}
-			if !s.flows[i][-1] {
-				s.flows[i][-1] = true
-				s.flowWhy[[2]int{i, -1}] = why
-			}
+	for r, why := range f.contentReach(e.G) {
+		if sl, ok := slotOf[r]; ok {
+			addFlow(sl, -1, why)
 		}
 	}
 	for k := range s.ret {
@@ -665,17 +804,17 @@ func (e *E1) summarise(f *e1Fn) {
 		for r := range rs {
 			switch r.kind {
 			case rkParam:
-				s.ret[k][pidx[r]] = true
+				s.ret[k][r.slot()] = true
 			case rkGlobal:
 				s.retGlobal[k] = true
 			case rkExt:
 				s.retExt[k] = true
 			case rkAlloc:
 				s.retFresh[k] = true
-				for c := range f.reach(f.content[r]) {
+				for c := range f.contentReach(r) {
 					switch c.kind {
 					case rkParam:
-						s.retContent[pidx[c]] = true
+						s.retContent[c.slot()] = true
 					case rkGlobal:
 						s.retContG = true
 					}
@@ -798,6 +937,20 @@ func (e *E1) call(f *e1Fn, ci ssa.CallInstruction) bool {
 		return e.applyDynamic(f, ci, args[2], nil, setRes, modRoots)
 	}
 
+	// inside a clone: a call through the specialised func parameter is a call of the known closure
+	if f.spec != nil && !cc.IsInvoke() {
+		srcs := Sources(cc.Value)
+		if len(srcs) == 1 && srcs[0] == ssa.Value(f.fn.Params[f.spec.j]) {
+			return e.apply(f, ci, e.fns[f.spec.h], nil, setRes, modRoots)
+		}
+	}
+	// a repository function that takes a closure created right here: use the clone for that closure
+	if sc := cc.StaticCallee(); sc != nil && e.fns[sc] != nil {
+		if j, mc := e.closureArg(sc, args); mc != nil {
+			return e.apply(f, ci, e.specFor(sc, j, mc.Fn.(*ssa.Function)), mc, setRes, modRoots)
+		}
+	}
+
 	callees := e.c.Callees(ci)
 	var repoCallees []*ssa.Function
 	var otherCallees []*ssa.Function
@@ -809,7 +962,7 @@ func (e *E1) call(f *e1Fn, ci ssa.CallInstruction) bool {
 		}
 	}
 	for _, g := range repoCallees {
-		if e.apply(f, ci, g, setRes, modRoots) {
+		if e.apply(f, ci, e.fns[g], nil, setRes, modRoots) {
 			ch = true
 		}
 	}
@@ -832,10 +985,19 @@ func (e *E1) call(f *e1Fn, ci ssa.CallInstruction) bool {
 	return ch
 }
 
-// argument roots of callee parameter i at this call site
-func (e *E1) argRoots(f *e1Fn, ci ssa.CallInstruction, g *ssa.Function, i int) rootSet {
+// argument roots of callee parameter i at this call site. gf may be a clone (then mc is the
+// closure whose bindings feed the pseudo-parameters); inside a clone, a call of the known closure
+// through the specialised parameter maps the closure's free variables to the pseudo-parameters.
+func (e *E1) argRoots(f *e1Fn, ci ssa.CallInstruction, gf *e1Fn, mc *ssa.MakeClosure, i int) rootSet {
 	cc := ci.Common()
+	g := gf.fn
 	np := len(g.Params)
+	if gf.spec != nil && i >= gf.base {
+		if mc != nil && i-gf.base < len(mc.Bindings) {
+			return e.val(f, mc.Bindings[i-gf.base])
+		}
+		return nil
+	}
 	if i < np {
 		if cc.IsInvoke() {
 			if i == 0 {
@@ -846,46 +1008,66 @@ func (e *E1) argRoots(f *e1Fn, ci ssa.CallInstruction, g *ssa.Function, i int) r
 			}
 			return nil
 		}
-		// bound method closures and wrappers take their receiver as a free variable; plain calls map 1:1
 		if i < len(cc.Args) {
+			if e.foreignFresh(cc.Args[i]) {
+				return nil
+			}
 			return e.val(f, cc.Args[i])
 		}
 		return nil
 	}
-	// free variable: from the closure value
+	// free variable of the callee
 	k := i - np
-	if mc, ok := cc.Value.(*ssa.MakeClosure); ok && mc.Fn == g && k < len(mc.Bindings) {
-		return e.val(f, mc.Bindings[k])
+	if f.spec != nil && g == f.spec.h {
+		if 2*(f.base+k) < len(f.proots) {
+			return rootSet{f.proots[2*(f.base+k)]: {}}
+		}
+		return nil
+	}
+	if m, ok := cc.Value.(*ssa.MakeClosure); ok && m.Fn == g && k < len(m.Bindings) {
+		return e.val(f, m.Bindings[k])
 	}
 	return f.loadFrom(e.val(f, cc.Value))
 }
 
-func (e *E1) apply(f *e1Fn, ci ssa.CallInstruction, g *ssa.Function, setRes func(int, rootSet), modRoots func(rootSet, string, *modInfo)) bool {
+func (e *E1) apply(f *e1Fn, ci ssa.CallInstruction, gf *e1Fn, mc *ssa.MakeClosure, setRes func(int, rootSet), modRoots func(rootSet, string, *modInfo)) bool {
+	return e.applySummary(f, ci, gf.fn, gf.sum, func(i int) rootSet { return e.argRoots(f, ci, gf, mc, i) }, setRes, modRoots)
+}
+
+// applySummary instantiates a callee summary at a call site. arg(i) gives the roots the i-th
+// parameter value refers to (shallow); the deep part is everything below them in the caller.
+func (e *E1) applySummary(f *e1Fn, ci ssa.CallInstruction, g *ssa.Function, gs *e1Summary, arg func(int) rootSet, setRes func(int, rootSet), modRoots func(rootSet, string, *modInfo)) bool {
 	ch := false
-	gs := e.fns[g].sum
-	arg := func(i int) rootSet {
-		rs := e.argRoots(f, ci, g, i)
-		return rs
+	in, _ := ci.(ssa.Instruction)
+	slotRoots := func(sl int, skipOwn bool) rootSet {
+		sh := arg(sl / 2)
+		if sl%2 == 0 {
+			return sh
+		}
+		if skipOwn {
+			return f.below(sh, in)
+		}
+		return f.below(sh, nil)
 	}
-	for i, m := range gs.mods {
-		modRoots(f.reach(arg(i)), "call "+e.c.FnName(g), m)
+	for sl, m := range gs.mods {
+		modRoots(slotRoots(sl, true), "call "+e.c.FnName(g), m)
 	}
 	if gs.gmod != nil && f.sum.gmod == nil {
 		f.sum.gmod = &modInfo{instr: ci, what: "call " + e.c.FnName(g), via: gs.gmod, fn: f.fn}
 		ch = true
 	}
-	for i, js := range gs.flows {
-		src := f.reach(arg(i))
-		for j := range js {
-			f.curVia = gs.flowWhy[[2]int{i, j}]
-			if j == -1 {
-				if f.addContent(e.G, src) {
+	for src, dsts := range gs.flows {
+		srcRoots := slotRoots(src, true)
+		for dst := range dsts {
+			f.curVia = gs.flowWhy[[2]int{src, dst}]
+			if dst == -1 {
+				if f.addContent(e.G, srcRoots) {
 					ch = true
 				}
 				continue
 			}
-			for rj := range f.reach(arg(j)) {
-				if f.addContent(rj, src) {
+			for rj := range slotRoots(dst, true) {
+				if f.addContent(rj, srcRoots) {
 					ch = true
 				}
 			}
@@ -893,35 +1075,27 @@ func (e *E1) apply(f *e1Fn, ci ssa.CallInstruction, g *ssa.Function, setRes func
 	}
 	f.curVia = nil
 	var fresh *root
-	getFresh := func() *root {
-		if fresh == nil {
-			cv, ok := ci.(*ssa.Call)
-			if !ok {
-				return nil
-			}
-			fresh = e.alloc(f, cv)
-		}
-		return fresh
-	}
+	cv, isCall := ci.(*ssa.Call)
 	for k := range gs.ret {
 		rs := rootSet{}
-		for i := range gs.ret[k] {
-			rs.addAll(f.reach(arg(i)))
+		for sl := range gs.ret[k] {
+			rs.addAll(slotRoots(sl, false))
 		}
-		if gs.retFresh[k] {
-			if fr := getFresh(); fr != nil {
-				rs.add(fr)
-				for i := range gs.retContent {
-					if f.addContent(fr, f.reach(arg(i))) {
+		if gs.retFresh[k] && isCall {
+			if fresh == nil {
+				fresh = e.alloc(f, cv)
+				for sl := range gs.retContent {
+					if f.addContent(fresh, slotRoots(sl, false)) {
 						ch = true
 					}
 				}
 				if gs.retContG {
-					if f.addContent(fr, rootSet{e.G: {}}) {
+					if f.addContent(fresh, rootSet{e.G: {}}) {
 						ch = true
 					}
 				}
 			}
+			rs.add(fresh)
 		}
 		if gs.retGlobal[k] {
 			rs.add(e.G)
@@ -929,9 +1103,7 @@ func (e *E1) apply(f *e1Fn, ci ssa.CallInstruction, g *ssa.Function, setRes func
 		if gs.retExt[k] {
 			rs.add(e.X)
 		}
-		before := ch
 		setRes(k, rs)
-		_ = before
 	}
 	return ch
 }
@@ -939,82 +1111,32 @@ func (e *E1) apply(f *e1Fn, ci ssa.CallInstruction, g *ssa.Function, setRes func
 // applyDynamic applies the summaries of the closures fnVal may denote.
 func (e *E1) applyDynamic(f *e1Fn, ci ssa.CallInstruction, fnVal ssa.Value, _ []ssa.Value, setRes func(int, rootSet), modRoots func(rootSet, string, *modInfo)) bool {
 	ch := false
-	var targets []*ssa.Function
+	n := 0
 	for _, s := range Sources(fnVal) {
-		switch x := s.(type) {
-		case *ssa.MakeClosure:
-			targets = append(targets, x.Fn.(*ssa.Function))
-		case *ssa.Function:
-			targets = append(targets, x)
+		mc, ok := s.(*ssa.MakeClosure)
+		if !ok {
+			continue
 		}
-	}
-	if len(targets) == 0 {
-		e.Unres["closure argument of "+CalleeName(e.c, ci)]++
-		return false
-	}
-	for _, g := range targets {
+		g := mc.Fn.(*ssa.Function)
 		gf := e.fns[g]
 		if gf == nil {
 			continue
 		}
-		gs := gf.sum
-		// the closure takes no explicit arguments here; its free variables come from the bindings
+		n++
+		// the closure is called without explicit arguments here; free variables come from its bindings
 		arg := func(i int) rootSet {
 			k := i - len(g.Params)
-			if k < 0 {
+			if k < 0 || k >= len(mc.Bindings) {
 				return nil
 			}
-			for _, s := range Sources(fnVal) {
-				if mc, ok := s.(*ssa.MakeClosure); ok && mc.Fn == g && k < len(mc.Bindings) {
-					return e.val(f, mc.Bindings[k])
-				}
-			}
-			return nil
+			return e.val(f, mc.Bindings[k])
 		}
-		for i, m := range gs.mods {
-			modRoots(f.reach(arg(i)), "call "+e.c.FnName(g), m)
+		if e.applySummary(f, ci, g, gf.sum, arg, setRes, modRoots) {
+			ch = true
 		}
-		for i, js := range gs.flows {
-			src := f.reach(arg(i))
-			for j := range js {
-				if j == -1 {
-					if f.addContent(e.G, src) {
-						ch = true
-					}
-					continue
-				}
-				for rj := range f.reach(arg(j)) {
-					if f.addContent(rj, src) {
-						ch = true
-					}
-				}
-			}
-		}
-		var fresh *root
-		for k := range gs.ret {
-			rs := rootSet{}
-			for i := range gs.ret[k] {
-				rs.addAll(f.reach(arg(i)))
-			}
-			if cv, isCall := ci.(*ssa.Call); gs.retFresh[k] && isCall {
-				if fresh == nil {
-					fresh = e.alloc(f, cv)
-				}
-				rs.add(fresh)
-				for i := range gs.retContent {
-					if f.addContent(fresh, f.reach(arg(i))) {
-						ch = true
-					}
-				}
-			}
-			if gs.retGlobal[k] {
-				rs.add(e.G)
-			}
-			if gs.retExt[k] {
-				rs.add(e.X)
-			}
-			setRes(k, rs)
-		}
+	}
+	if n == 0 {
+		e.Unres["closure argument of "+CalleeName(e.c, ci)]++
 	}
 	return ch
 }
@@ -1047,40 +1169,24 @@ func (e *E1) applyLibrary(f *e1Fn, ci ssa.CallInstruction, g *ssa.Function, nres
 				setRes(0, rootSet{e.alloc(f, v): {}})
 			}
 		case name == "reflect.Copy":
-			src := f.loadFrom(e.val(f, args[1]))
-			src.addAll(e.val(f, args[1]))
-			for r := range e.val(f, args[0]) {
-				if f.addContent(r, src) {
-					ch = true
-				}
-			}
-			modRoots(e.val(f, args[0]), "reflect.Copy into", nil)
+			// SINK CUT (see DESIGN §2 E1): what is stored into reflect-addressed storage (the caller's
+			// unpack target and its temporaries) is not tracked through that storage.
+			dst := rootSet{}
+			dst.addAll(e.val(f, args[0]))
+			dst.addAll(f.loadFrom(e.val(f, args[0])))
+			modRoots(dst, "reflect.Copy into", nil)
 		case name == "reflect.Append" || name == "reflect.AppendSlice":
 			if v, ok := ci.(*ssa.Call); ok {
 				r := e.alloc(f, v)
 				rs := rootSet{r: {}}
 				rs.addAll(e.val(f, args[0]))
 				setRes(0, rs)
-				if f.addContent(r, derived()) {
-					ch = true
-				}
 			}
 		case isValueMethod && reflectSetters[g.Name()]:
-			recv := e.val(f, args[0])
-			var v rootSet
-			for _, a := range args[1:] {
-				if e.carries(a.Type()) {
-					if v == nil {
-						v = rootSet{}
-					}
-					v.addAll(e.val(f, a))
-					v.addAll(f.loadFrom(e.val(f, a)))
-				}
-			}
-			for r := range recv {
-				if f.addContent(r, v) {
-					ch = true
-				}
+			recv := rootSet{}
+			recv.addAll(e.val(f, args[0]))
+			if g.Name() == "SetMapIndex" {
+				recv.addAll(f.loadFrom(e.val(f, args[0])))
 			}
 			modRoots(recv, "reflect "+g.Name(), nil)
 		case isValueMethod && g.Name() == "Call":
@@ -1121,6 +1227,78 @@ func (e *E1) applyLibrary(f *e1Fn, ci ssa.CallInstruction, g *ssa.Function, nres
 	return ch
 }
 
+// foreignFresh: v is plain data freshly produced by a package that cannot know the repository's
+// root package (it does not import it): it cannot contain a *Config or any other config-internal
+// object, and nobody else holds it. Used for the text parsed by parse.ValueWithConfig.
+func (e *E1) foreignFresh(v ssa.Value) bool {
+	if r, ok := e.foreign[v]; ok {
+		return r
+	}
+	e.foreign[v] = false
+	res := true
+	srcs := Sources(v)
+	if len(srcs) == 0 {
+		res = false
+	}
+	for _, s := range srcs {
+		var call *ssa.Call
+		switch x := s.(type) {
+		case *ssa.Extract:
+			call, _ = x.Tuple.(*ssa.Call)
+		case *ssa.Call:
+			call = x
+		case *ssa.Const:
+			continue
+		}
+		if call == nil {
+			res = false
+			break
+		}
+		g := call.Call.StaticCallee()
+		if g == nil || g.Pkg == nil || g.Pkg.Pkg.Path() == modPath {
+			res = false
+			break
+		}
+		imports := false
+		seen := map[*types.Package]bool{}
+		var walk func(p *types.Package)
+		walk = func(p *types.Package) {
+			if seen[p] || imports {
+				return
+			}
+			seen[p] = true
+			if p.Path() == modPath {
+				imports = true
+				return
+			}
+			for _, q := range p.Imports() {
+				walk(q)
+			}
+		}
+		walk(g.Pkg.Pkg)
+		if imports {
+			res = false
+			break
+		}
+		gf := e.fns[g]
+		if gf == nil {
+			res = false // only callees whose bodies were analysed
+			break
+		}
+		// its result must be summarised as fresh only
+		for k := range gf.sum.ret {
+			if len(gf.sum.ret[k]) > 0 || gf.sum.retGlobal[k] || gf.sum.retExt[k] {
+				res = false
+			}
+		}
+		if res {
+			e.Modelled["foreign-fresh:"+g.String()] = "results of " + g.String() + " are plain data from a package that does not import the root package: they cannot contain config-internal objects and are held by nobody else"
+		}
+	}
+	e.foreign[v] = res
+	return res
+}
+
 // ---- queries ---------------------------------------------------------------
 
 func (e *E1) Summary(fn *ssa.Function) *e1Summary {
@@ -1147,8 +1325,11 @@ func (e *E1) ParamIndex(fn *ssa.Function, v ssa.Value) int {
 // Chain renders the call chain of a modification down to the store.
 func (e *E1) Chain(m *modInfo) string {
 	var parts []string
-	for x := m; x != nil && len(parts) < 12; x = x.via {
+	for x := m; x != nil; x = x.via {
 		parts = append(parts, fmt.Sprintf("%s: %s at %s", e.c.FnName(x.fn), x.what, e.c.Pos(x.instr.Pos())))
+	}
+	if len(parts) > 7 { // keep the entry and the actual write, elide the middle
+		parts = append(append(append([]string{}, parts[:3]...), fmt.Sprintf("... %d calls ...", len(parts)-6)), parts[len(parts)-3:]...)
 	}
 	return strings.Join(parts, " -> ")
 }
@@ -1166,11 +1347,13 @@ func (e *E1) Pts(v ssa.Value) rootSet {
 func (e *E1) DerivedFromParam(v ssa.Value, idx int) bool {
 	fn := v.Parent()
 	f := e.fns[fn]
-	if f == nil || idx >= len(f.proots) {
+	if f == nil || 2*idx+1 >= len(f.proots) {
 		return false
 	}
-	_, ok := e.val(f, v)[f.proots[idx]]
-	return ok
+	rs := e.val(f, v)
+	_, ok1 := rs[f.proots[2*idx]]
+	_, ok2 := rs[f.proots[2*idx+1]]
+	return ok1 || ok2
 }
 
 // IsFresh: every root of v is an allocation of this function (or a callee's fresh result), and
@@ -1198,6 +1381,32 @@ func (e *E1) IsFresh(v ssa.Value, forbidden map[int]bool) (bool, string) {
 	return true, ""
 }
 
+// DumpPts prints the roots of every value of fn (debugging aid).
+func (e *E1) DumpPts(fn *ssa.Function) {
+	f := e.fns[fn]
+	for _, b := range fn.Blocks {
+		for _, in := range b.Instrs {
+			if v, ok := in.(ssa.Value); ok {
+				if rs := f.pts[v]; len(rs) > 0 {
+					fmt.Printf("      %s = %s   :: %s\n", v.Name(), v.String(), rsStr(rs))
+				}
+			}
+		}
+	}
+	for r, cs := range f.content {
+		fmt.Printf("      content[%s] = %s\n", r, rsStr(cs))
+	}
+}
+
+func rsStr(rs rootSet) string {
+	var out []string
+	for r := range rs {
+		out = append(out, r.String())
+	}
+	sort.Strings(out)
+	return strings.Join(out, ",")
+}
+
 // Dump prints the summary of fn (debugging aid).
 func (e *E1) Dump(fn *ssa.Function) {
 	f := e.fns[fn]
@@ -1212,7 +1421,7 @@ func (e *E1) Dump(fn *ssa.Function) {
 	}
 	sort.Ints(idx)
 	for _, i := range idx {
-		fmt.Printf("   MOD %d: %s\n", i, e.Chain(s.mods[i]))
+		fmt.Printf("   MOD %s: %s\n", slotStr(i), e.Chain(s.mods[i]))
 	}
 	for i, js := range s.flows {
 		for j := range js {
@@ -1221,13 +1430,13 @@ func (e *E1) Dump(fn *ssa.Function) {
 			if w != nil {
 				ws = e.Chain(w)
 			}
-			fmt.Printf("   FLOW %d -> %d: %s\n", i, j, ws)
+			fmt.Printf("   FLOW %s -> %s: %s\n", slotStr(i), slotStr(j), ws)
 		}
 	}
 	for k := range s.ret {
-		fmt.Printf("   RET %d: params=%v fresh=%v global=%v ext=%v\n", k, keysOf(s.ret[k]), s.retFresh[k], s.retGlobal[k], s.retExt[k])
+		fmt.Printf("   RET %d: from=%v fresh=%v global=%v ext=%v\n", k, slotsOf(s.ret[k]), s.retFresh[k], s.retGlobal[k], s.retExt[k])
 	}
-	fmt.Printf("   RETCONTENT params=%v global=%v\n", keysOf(s.retContent), s.retContG)
+	fmt.Printf("   RETCONTENT %v global=%v\n", slotsOf(s.retContent), s.retContG)
 	if s.gmod != nil {
 		fmt.Printf("   GMOD %s\n", e.Chain(s.gmod))
 	}
@@ -1239,5 +1448,13 @@ func keysOf(m map[int]bool) []int {
 		out = append(out, k)
 	}
 	sort.Ints(out)
+	return out
+}
+
+func slotsOf(m map[int]bool) []string {
+	var out []string
+	for _, k := range keysOf(m) {
+		out = append(out, slotStr(k))
+	}
 	return out
 }
